@@ -90,6 +90,10 @@ def grid():
     for cn, col in col_variants()[:3]:
         add("comparison", cl.ExactMatch, cn, lambda col=col: cl.ExactMatch(col()))
         add("comparison", cl.LevenshteinAtThresholds, cn, lambda col=col: cl.LevenshteinAtThresholds(col(), [1, 2]))
+    # every defaulted argument left at its default (mutable default lists are shared between instances)
+    for c in (cl.LevenshteinAtThresholds, cl.DamerauLevenshteinAtThresholds, cl.JaccardAtThresholds, cl.JaroAtThresholds,
+              cl.JaroWinklerAtThresholds, cl.ArrayIntersectAtSizes, cl.CosineSimilarityAtThresholds):
+        add("comparison", c, "defaults", lambda c=c: c("name"))
     add("comparison", cl.ExactMatch, "tf", lambda: cl.ExactMatch("name").configure(term_frequency_adjustments=True))
     add("comparison", cl.ExactMatch, "mu",
         lambda: cl.ExactMatch("name").configure(m_probabilities=[0.9, 0.1], u_probabilities=[0.1, 0.9]))
